@@ -124,6 +124,18 @@ CHECKS = {
         "Sequential histories use cooperative peers; timeouts count as failed calls that change nothing.",
    technique="TLA+ spec (ReqRep.tla) + TLC; controlled-scheduler interleaving of racing calls on real sockets; TLC trace validation of call histories",
    design_ref="DESIGN.md 4.6, 5 (C10)"),
+ "C11": dict(
+   text="TLC checks Router.tla (forward / reverse identity maps under attach with placeholder, identity announcement, detach, "
+        "colliding identities; 3 connections x 2 identities x 7 operations): SendGoesToAnnouncer, PrefixIsTruth, Routable; all 8 367 "
+        "histories of 6 operations are replayed on the real RouterMap with both maps compared after every operation and the "
+        "invariants evaluated on the real maps; delimiter helpers are checked for every payload shape. Real ROUTER sockets with "
+        "DEALER/REQ peers (distinct, absent, 255-byte identities; payloads with empty frames in every position; mandatory on/off; "
+        "reconnect with the same identity; tcp/ipc/inproc/io_uring): identity frame == sender's ROUTING_ID, echoes and addressed "
+        "messages reach only the addressed peer unchanged, unroutable -> HostUnreachable / silent drop.",
+   note="Socket-level order of connect / first message / identity announcement is whatever the runtime produces (observed, not "
+        "enumerated). Known finding C11-u (io_uring ROUTER ignores the peer's socket type).",
+   technique="TLA+ spec (Router.tla) + TLC exhaustive history export replayed on the real RouterMap; recorded socket histories checked against the property",
+   design_ref="DESIGN.md 4.6, 5 (C11)"),
 }
 
 NA_DEFAULT = "check not built yet (construction in progress; see DESIGN.md section 10)"
